@@ -45,6 +45,10 @@ GraphCheck(c) ==
                  stn == Run(none)
              IN stn.status = "unknown" \/ AgreesBut(c.obs.noimp, stn, FALSE)
                 \/ PrintT(<<"MISMATCH", c.id, "noimp", Kind(c.obs.noimp), ToJson(Summary(stn))>>)
+          \* the same program evaluated a second time on ONE VM (risor.WithVM) with the same import root: an evaluation
+          \* starts with no module loaded, whatever the VM did before
+          /\ ("reused" \notin DOMAIN c.obs \/ Agrees(c.obs.reused, st)
+                \/ PrintT(<<"MISMATCH", c.id, "reused", Kind(c.obs.reused), ToJson(Summary(st))>>))
           \* the main program fed statement by statement to one compiler and one VM (REPL): the same final state
           /\ (Agrees(c.obs.repl, st) \/ PrintT(<<"MISMATCH", c.id, "repl", Kind(c.obs.repl), ToJson(Summary(st))>>))
 
